@@ -322,3 +322,62 @@ def rblock(rng, depth, html=True, math=False):
 
 def rdoc(rng, html=True, math=False):
     return [25, rblocks(rng, 2, html, math, n=rng.randint(0, 4))]
+
+
+def undump(w):
+    """a wire tree as decoded from the model (strings are lists of code points) -> the dump() shape"""
+    from harness.core import dstr
+    tag = w[0]
+    name = NAMES[tag]
+    S = dstr
+    K = lambda x: [undump(c) for c in x]  # noqa: E731
+    O = lambda x: [S(y) if isinstance(y, list) else y for y in x]  # noqa: E731
+    if name in ('RawText', 'HtmlSpan', 'Math', 'BlockCode', 'ThematicBreak', 'HtmlBlock'):
+        return [tag, S(w[1])]
+    if name in ('Strong', 'Emphasis'):
+        return [tag, S(w[1]), K(w[2])]
+    if name in ('Strikethrough', 'EscapeSequence', 'Quote', 'Paragraph', 'Document', 'LinkReferenceDefinitionBlock'):
+        return [tag, K(w[1])]
+    if name == 'BlankLine':
+        return [tag]
+    if name == 'InlineCode':
+        return [tag, S(w[1]), S(w[2]), S(w[3])]
+    if name in ('Image', 'Link'):
+        return [tag, S(w[1]), S(w[2]), S(w[3]), [S(x) for x in w[4]], S(w[5]), K(w[6])]
+    if name == 'AutoLink':
+        return [tag, S(w[1]), bool(w[2]), K(w[3])]
+    if name == 'LineBreak':
+        return [tag, S(w[1]), bool(w[2])]
+    if name == 'Heading':
+        return [tag, w[1], S(w[2]), K(w[3])]
+    if name == 'SetextHeading':
+        return [tag, w[1], S(w[2]), K(w[3])]
+    if name == 'CodeFence':
+        return [tag, w[1], S(w[2]), S(w[3]), S(w[4]), S(w[5])]
+    if name == 'List':
+        return [tag, list(w[1]), bool(w[2]), K(w[3])]
+    if name == 'ListItem':
+        return [tag, S(w[1]), w[2], w[3], bool(w[4]), K(w[5])]
+    if name == 'Table':
+        return [tag, [list(a) for a in w[1]], K(w[2]), K(w[3])]
+    if name == 'TableRow':
+        return [tag, [list(a) for a in w[1]], K(w[2])]
+    if name == 'TableCell':
+        return [tag, list(w[1]), K(w[2])]
+    if name == 'LinkReferenceDefinition':
+        return [tag, S(w[1]), S(w[2]), S(w[3]), S(w[4]), S(w[5])]
+    raise DumpError(name)
+
+
+def block_line_numbers(t):
+    """pre-order line numbers of the block tokens below t (a table: itself, header row and cells, body rows and cells)"""
+    from mistletoe import block_token
+    out = []
+    for c in (t.children or ()):
+        if isinstance(c, block_token.BlockToken):
+            out.append(c.line_number)
+            if type(c).__name__ == 'Table' and 'header' in vars(c):
+                out.append(c.header.line_number)
+                out += block_line_numbers(c.header)
+            out += block_line_numbers(c)
+    return out
